@@ -146,6 +146,12 @@ def corpus():
         run_case(uri=U("http", "a", 443, "/x"), headers=[["Proxy-Authorization", "p"]],
                  resps=[(302, [A("https", "a", None, "/")])]),
         run_case(uri=base, headers=[], resps=[(302, [A("http", "b", None, "/")])]),
+        # relative references that embed an absolute URL / URI delimiters in query or fragment (seeded change C27-2)
+        run_case(uri=base, headers=auth, resps=[(302, [R("/login", "next=http://a.example/app/start")]), (302, [R("r")]), (200, [])]),
+        run_case(agent="browser", uri=base, resps=[(301, [R("login", "return_to=https://a/")]), (200, [])]),
+        run_case(uri=base, resps=[(307, [R("", "continue=http://b/x")]), (302, [R("", "", "http://b/x")]), (200, [])]),
+        {"op": "join", "base": U("http", "a", None, "/x/y"), "ref": R("/login", "next=http://a.example/app/start")},
+        {"op": "join", "base": U("http", "a", None, "/x/y"), "ref": R("l", "u=//b/p", "//b")},
         {"op": "join", "base": U("http", "a", None, "/b/c/d", "q"), "ref": R("../g")},
         {"op": "join", "base": U("http", "a", None, "/b//c/d"), "ref": R("e")},
         {"op": "join", "base": U("http", "a"), "ref": R("../../g/.")},
@@ -168,11 +174,21 @@ def _path(rng, absolute):
     return p
 
 
+# queries / fragments that themselves look like URIs or carry URI delimiters (seeded change C27-2: a relative Location
+# whose query embeds an absolute URL must still be RESOLVED, not taken for an absolute one)
+HOSTILE_Q = ["next=http://a.example/app/start", "return_to=https://a/", "u=//b/p", "a:b", "x?y=/z", "r=../../x", "@b", "://"]
+HOSTILE_F = ["http://b/x", "//b", "a:b/c", "?q", "/../x"]
+
+
 def _q(rng):
+    if rng.random() < 0.2:
+        return rng.choice(HOSTILE_Q)
     return rng.choice(["", "", "", "q", "a=1&b=2"])
 
 
 def _f(rng):
+    if rng.random() < 0.12:
+        return rng.choice(HOSTILE_F)
     return rng.choice(["", "", "", "f", "top"])
 
 
